@@ -257,6 +257,9 @@ func Gen17(t *rapid.T) Case17 {
 // inputs where canonicalization steps interact with the URL's structure
 var c17Hostile = []string{"data:x ?", "a:b ?#", "a:b  ?&&", "a:b ?&#f", "foo:o  ?=", "a:b #", "a:b  ?q# ", "foo://u:p@h:1/?&", "http://h/?&&", "http://h/?#", "http://h/?=", "http://u@h:80/?b&a#",
 	"http://h/%4%31", "http://h/%%34%31", "http://h/#x%6%31", "http://h/?%4%31=%%36%31", "http://h/%25252525252525252525252541", "http://h/?a=%2525252525252525252525252541", "foo://u@%2f", "foo://%2f:80", "foo://h%3a1/", "foo://u:p@%5b/", "http://h/%252e%252e/x", "http://h/a/%2E%2e/b", "http://h/?%2B", "http://h/?a=%26&b", "http://h/?%25%36%31", "foo:/.//p", "foo:/p/..//x", "http://h//..//x?#",
+	// an escaped (or doubled) delimiter at the start or inside each component: decoding must not let it be read structurally the second time
+	"http://h/p#%23a", "http://h/p###a", "http://h/p#%2523#", "http://h/p#%23%23", "http://h/p?%3Fa", "http://h/p??a", "http://h/p?%253F", "http://h/%2Fa", "http://h/%252F%252Fa", "http://h//a", "http://h/p%3Fq", "http://h/p%23f", "http://h/p?q%23x",
+	"http://u%40:p%3A@h/", "http://u%2540@h/", "foo://h/p#%23a", "foo:o#%23%23", "foo:o?%3F%23", "http://h/%5Cx", "http://h/a%2F..%2Fb", "http://h/?a=%23&b=%26%3D",
 	"file:///C|/../x", "file://localhost/C:/x#", "ws://h:80/?%20", "http://h:0080/", "HTTP://H/?B=1&A=2&a=3", "x:y?%zz&%", "foo://h/?a b&c\td", "example.com:80/p?b&a", "u:p@h/?q", "//h/?b&a"}
 
 var P17 = core.Register(core.Prop[Case17]{
